@@ -3,12 +3,17 @@
    the minimax value for every window position (AB_window), is exact on the full window, independent
    of child order, and the root loop keeps the first best move; the first realistic child always
    improves on the sentinel start value (so a completed first pass over a non-empty move list has a move).
-   OPEN: C11_legal / C11_some / C11_none / C11_terminates over the search model (statements kept);
-   decided per run by the poll-exact correspondence on counting timeouts and the spec monitor
+   Over the search model (timeout = first expiry at poll k, any k; any repetition table):
+   the returned move is a generated legal move of the root (C11_legal), no legal move => no move (C11_none),
+   legal moves + completed first pass => a move (C11_some); alphabeta only returns realistic scores.
+   `small_root` = at most 400 generated moves (the model's drain fuel; real positions have <= 218).
+   OPEN: termination of the model's fuel needs "captures remove a man" for generated moves (relative
+   version proved in SearchFacts: search_exact_rel); lifting `legals` to Rules.legal_moves is C01.
+   Also decided per run by the poll-exact correspondence on counting timeouts and the spec monitor
    "returned move is in Rules.legal_moves". *)
 From Coq Require Import NArith ZArith List Bool.
 From Chess Require Import base.Types model.Score model.Board model.MoveGen model.Search spec.Rules spec.GameTree
-  proofs.GameTreeFacts proofs.SearchOrder.
+  proofs.GameTreeFacts proofs.SearchOrder spec.IterSpec proofs.SearchFacts.
 Local Open Scope N_scope.
 
 Theorem C11_alphabeta_exact : forall t w, GameTree.alphabeta w SMin SMax t = GameTree.minimax w t.
@@ -23,7 +28,19 @@ Theorem C11_first_child_improves : forall c s, realistic s -> Search.is_better c
 Proof. exact first_child_improves. Qed.
 Print Assumptions C11_first_child_improves.
 
-Definition C11_legal_statement : Prop :=
-  forall k tf passes fuel root m sc d f, Search.search k tf passes fuel root = (Some m, sc, d, f) -> In m (legals root).
-Definition C11_none_statement : Prop :=
-  forall k tf passes fuel root, legals root = nil -> (0 < passes)%nat -> fst (fst (fst (Search.search k tf passes fuel root))) = None.
+Theorem C11_legal : forall k tf passes fuel root m sc d f,
+  small_root root -> Search.search k tf passes fuel root = (Some m, sc, d, f) -> In m (legals root).
+Proof. exact search_move_legal. Qed.
+Print Assumptions C11_legal.
+
+Theorem C11_none : forall k tf passes fuel root, legals root = nil ->
+  fst (fst (fst (Search.search k tf passes fuel root))) = None.
+Proof. exact search_none_gen. Qed.
+Print Assumptions C11_none.
+
+Theorem C11_some : forall k tf passes fuel root sc best st',
+  small_root root -> legals root <> nil ->
+  pass k tf (fuel + N.to_nat 0) root 0 None {| s_polls := 0; s_evals := 0 |} = PassDone sc best st' ->
+  fst (fst (fst (Search.search k tf (S passes) fuel root))) <> None.
+Proof. exact search_some. Qed.
+Print Assumptions C11_some.
